@@ -72,6 +72,49 @@ def cache_cancel_scenarios(ctx: Ctx):
                                "cancelled call ran", "cases": bad[:2]})
 
 
+def cache_cancel_histories(ctx: Ctx):
+    """Cache histories with cancellation, validated against the transition system Cache with the label lookCancelled
+    (Props/C06Cache.lean: cancelled_step_frame, dropped_never_computed, cache_sound_with_cancellation)."""
+    from . import cache_engine as ce
+
+    n = 14 if ctx.tier == "quick" else 120
+    scens = []
+    while len(scens) < n:
+        sc = ce.gen_scenario(ctx.rng, {"cancel_p": 1.0, "nsessions": [1, 2, 2]})
+        sc["_processes"] = 1
+        scens.append(sc)
+    outs = ce.run_many(scens, jobs=8)
+    diffs, fails, dropped = [], [], 0
+    for sc, o in zip(scens, outs):
+        j = ce.judge_confirmed(ctx.model, sc, o)
+        ctx.case({"cache_cancel_history": [len(x) for x in sc["sessions"]], "workers": sc["workers"], "block": sc["block"]})
+        ctx.count("cache_cancel_histories")
+        dropped += j["info"].get("lookCancelled", 0)
+        rel = [x for x in j["oracles"] if x["oracle"] in ("cache_cancelled_call_not_cancelled", "cache_call_failed", "cache_wrong_value", "cache_hang")]
+        if rel:
+            fails.append((sc, j, rel))
+        elif j["diff"] is not None:
+            diffs.append((sc, j))
+    ctx.count("labels.lookCancelled", dropped)
+    ctx.oblige("cache histories with cancellation are runs of Cache.step (a cancelled queued call = lookCancelled: no compute, no write, "
+               "no result), the calls the model drops = the calls whose cancel() returned True", not diffs, "%d dropped calls" % dropped)
+    ctx.oblige("cache histories with cancellation: cancelled calls stay cancelled, all other calls deliver their value, no hang", not fails)
+    clean = lambda sc: {k: v for k, v in sc.items() if not k.startswith("_")}
+    if fails:
+        sc, j, rel = fails[0]
+        ctx.violation({"kind": "cache_cancel_history", "failing_input": True},
+                      {"what": "cancellation on an executor with a cache directory: " + rel[0]["oracle"], "cache_scenario": clean(sc), "oracles": rel[:3]})
+    elif diffs:
+        sc, j = diffs[0]
+        ctx.violation({"kind": "cache_cancel_correspondence", "failing_input": False},
+                      {"what": "cache history with cancellation is not a run of the Lean model Cache (theorems of Props/C06Cache.lean no longer shown "
+                               "to apply); no failing input found", "cache_scenario": clean(sc), "difference": j["diff"]}, no_input=True)
+    if not ctx.replay_file and dropped < 3:
+        from .common import InfraError
+
+        raise InfraError("generator too thin: only %d cancelled look-ups exercised" % dropped)
+
+
 def body(ctx: Ctx):
     if ctx.replay_file:
         import json as _json
@@ -83,11 +126,13 @@ def body(ctx: Ctx):
     n = 90 if ctx.tier == "quick" else 900
     res = sysprop.campaign(ctx, "C06", PROFILE, n, CORPUS, REQUIRED)
     cache_cancel_scenarios(ctx)
+    cache_cancel_histories(ctx)
     res["rule"] = ("scenarios: executor mode (block 1-3 workers | per-call with max_cores/max_workers/none), resolver on/off, "
                    "1-6 calls (gated / with futures as args, kwargs, nested lists), user script interleaving submit, cancel "
                    "(at queued / parked / running / finished points via gates), await, sleep, shutdown(wait, cancel_futures); "
                    "seeded schedule perturbation per thread role; non-trivial = >=2 calls or >=3 script commands; distinct = sha1; plus five oracle-only "
-                   "scenarios with a cache directory (cached / uncached calls cancelled while queued)")
+                   "scenarios with a cache directory (cached / uncached calls cancelled while queued) and cache histories with cancellation "
+                   "replayed through Cache.step (label lookCancelled)")
     res["trusted_base_extra"] = sysprop.TRUST
     return res
 
